@@ -10,10 +10,11 @@ import (
 )
 
 // tapeReader stands in for crypto/rand.Reader.
-//   generating mode: bytes come from a SplitMix64 stream; every Read is logged; the k-th multi-byte
-//                    read can be made to fail (1-byte reads never fail: crypto/ecdsa's MaybeReadByte
-//                    ignores their result and fires non-deterministically).
-//   replay mode:     serves the logged reads; tolerant of the optional 1-byte MaybeReadByte read.
+//
+//	generating mode: bytes come from a SplitMix64 stream; every Read is logged; the k-th multi-byte
+//	                 read can be made to fail (1-byte reads never fail: crypto/ecdsa's MaybeReadByte
+//	                 ignores their result and fires non-deterministically).
+//	replay mode:     serves the logged reads; tolerant of the optional 1-byte MaybeReadByte read.
 type tapeEntry struct {
 	data []byte
 	fail bool
